@@ -245,7 +245,6 @@ where
                     return;
                 }
                 obs.label(format!("refusal:{what}"));
-                obs.nt();
             }
             (Err(p), _) | (_, Err(p)) => {
                 obs.fail(format!("mismatched-share-{}", panic_sig(&p)), format!("accumulating/merging a {what} share panicked: {p}"));
@@ -299,7 +298,7 @@ impl Check for C13 {
     type Case = Case;
     const ID: &'static str = "C13";
     fn rule(&self) -> String {
-        "proptest-generated: VDAF ∈ {Prio3 instances, Poplar1 inner/leaf parameter, Prio2}; 1..30 output shares per aggregator obtained through the real decoder from generated canonical elements (random with 0 / 1 / p−1 edge values mixed in); a generated set partition into 1..6 batches (empty batches allowed), a generated order inside each batch, a generated binary merge tree with either operand order. Oracle: the batched/merged aggregate share equals, byte for byte, the single left-to-right pass; aggregate() = init + accumulate; aggregate_init is a two-sided identity; merge commutes; unshard agrees; a share of another length or of the other Poplar1 level kind is refused by accumulate, merge and unshard and leaves the accumulator's encoding unchanged. Non-trivial = ≥ 2 batches with a merge tree that is not the left comb, or a refusal case; distinct by case hash".into()
+        "proptest-generated: VDAF ∈ {Prio3 instances, Poplar1 inner/leaf parameter, Prio2}; 1..30 output shares per aggregator obtained through the real decoder from generated canonical elements (random with 0 / 1 / p−1 edge values mixed in); a generated set partition into 1..6 batches (empty batches allowed), a generated order inside each batch, a generated binary merge tree with either operand order. Oracle: the batched/merged aggregate share equals, byte for byte, the single left-to-right pass; aggregate() = init + accumulate; aggregate_init is a two-sided identity; merge commutes; unshard agrees; a share of another length or of the other Poplar1 level kind is refused by accumulate, merge and unshard and leaves the accumulator's encoding unchanged. Every case also carries a refusal clause (a share of another length / level kind), so that alone does not count. Non-trivial = ≥ 2 batches with a merge tree that is not the left comb in generation order; distinct by case hash".into()
     }
     fn strategy(&self, _tier: Tier) -> BoxedStrategy<Case> {
         case_strategy()
